@@ -17,6 +17,8 @@ RULE_PROP_OVERRIDE = {
     "R01.done": "C13",
 }
 ID_RULE = {"M20_jal_repr": "R14.jal"}
+# calibration edits whose breakage belongs to another property than the rule id suggested
+ID_PROP = {"N11_no_dmem_reset": ("C13", "R13.load")}
 RULE_RENAME = {
     "R01.done": "R13.done",
     "R01.sign": "R01.sem",
@@ -48,6 +50,8 @@ def _round0() -> list[dict]:
         prop = RULE_PROP_OVERRIDE.get(rule) or ("C" + rule[1:3])
         rule = RULE_RENAME.get(rule, rule)
         rule = ID_RULE.get(x["id"], rule)
+        if x["id"] in ID_PROP:
+            prop, rule = ID_PROP[x["id"]]
         out.append({"id": x["id"], "prop": prop, "rule": None if expect == "silent" or rule.endswith("*") else rule,
                     "expect": expect, "file": x["file"], "old": x["old"], "new": x["new"],
                     "pinned_suite": x.get("pinned_suite")})
